@@ -2741,7 +2741,14 @@ class HTTPChannel(basic.LineReceiver, policies.TimeoutMixin):
                 sanitizedHeaders.addRawHeader(name, value)
             headers = sanitizedHeaders
 
-        headerSequence = [version, b" ", code, b" ", reason, b"\r\n"]
+        headerSequence = [
+            version,
+            b" ",
+            code,
+            b" ",
+            _sanitizeLinearWhitespace(reason),
+            b"\r\n",
+        ]
         for name, values in headers.getAllRawHeaders():
             for value in values:
                 headerSequence.extend((name, b": ", value, b"\r\n"))
